@@ -104,6 +104,12 @@ CHECKS.update({
    text='On each layout (k=2..4, 3-6 sites, uneven sites, natural-spline layout with repeated end sites and second-derivative end conditions; more in thorough): the solved spline meets every datum (value at interior sites, requested derivative at the end sites) for symbolic data; for data taken from a polynomial of degree < k with symbolic coefficients the spline and ALL its derivatives equal the polynomial at a symbolic x; with Dual/Dual2 data the sensitivity to datum j equals the spline of unit data e_j and there is no second-order term; a Dual/Dual2 abscissa returns s, s\'(x)g, s\'\'(x)g^2 + 2 s\'(x)h; the 3x3 spline-type x abscissa-type table incl. the two refusing pairs; site-count mismatches and evaluation before solving give Err (no abort).',
    note='Concrete knots/sites (symbolic ones are outside); reals.'),
 })
+CHECKS.update({
+ 'C16': dict(engine='mirsym', technique='PARTIAL: (a) the MIR of serde_json f64_from_parts (as compiled with the repo feature set) interpreted in IEEE-754 semantics with z3 FloatingPoint against a correctly-rounded specification in 128-bit integers, candidates replayed through the real to_json/from_json; (b) symbolic execution of the two From<...DataModel> rebuild-on-load conversions, rebuilt object proved equal to the original; native JSON round-trip replay',
+   category='other', design_ref='DESIGN.md §3.16, §4',
+   text='Partial by design (the serde-derive visitors, bincode and third-party Serialize impls cannot be encoded within reach and are assumed by contract). What IS decided: (a) for all 9*10^16 seventeen-digit decimals in [1,10) the number kernel of the JSON reader returns the double whose half-ulp neighbourhood contains the decimal - or, when the float_roundtrip feature routes parsing to serde_json::lexical, the obligation is discharged by that crate\'s documented contract (stated in the evidence); (b) NamedCal and FXRates rebuilt from their saved data model (name only / quotes + currency order, also after an update) equal the original: same members, same currency order, same rates and first-order sensitivities.',
+   note='A change such as #[serde(skip)] on a stored field is NOT detected by this check. Finding fixed: serde_json default number parser (known_findings.json).'),
+})
 NA_REASON = 'no registered check in this revision yet (work in progress; planned solver-based check described in DESIGN.md §3) — not claimed'
 
 checks = []
@@ -132,7 +138,7 @@ m = {
            'add_only': True},
  'engines': [
    {'name': 'kani', 'path': '/verif/kani', 'serves_properties': ['C08', 'C11', 'C20', 'C04'], 'kind_free_text': 'Kani 0.68 / CBMC 6.11 proof harnesses over the compiled crate (path dependency on /repo), native replay binary in the same crate'},
-   {'name': 'mirsym', 'path': '/verif/mirsym', 'serves_properties': ['C01','C02','C03','C04','C05','C06','C09','C10','C11','C12','C13','C14','C15','C17','C18','C19','C20'], 'kind_free_text': 'symbolic executor for rustc MIR (regenerated from /repo on every run) discharging path obligations with z3'},
+   {'name': 'mirsym', 'path': '/verif/mirsym', 'serves_properties': ['C01','C02','C03','C04','C05','C06','C09','C10','C11','C12','C13','C14','C15','C16','C17','C18','C19','C20'], 'kind_free_text': 'symbolic executor for rustc MIR (regenerated from /repo on every run) discharging path obligations with z3'},
    {'name': 'tables', 'path': '/verif/tables', 'serves_properties': ['C07'], 'kind_free_text': 'SMT encoding of the static holiday tables against the published rules over a symbolic day'},
  ],
  'checks': checks,
